@@ -1,8 +1,10 @@
 (* C18 -- documentation is taken from the directly preceding doc comment, verbatim.  Statements only.
-   PARTIAL: the locator is proved for a doc comment separated from its construct by blanks (space, tab, CR, LF);
-   ordinary comments in the gap and the normaliser (paragraph / line / tag structure) are covered by the exact
-   correspondence javadoc-model = implementation and by the generator-based oracle, not by theorems. *)
-From AidlV Require Import Model.Javadoc Proofs.Javadoc.
+   PARTIAL: the locator is proved for a doc comment separated from its construct by blanks (space, tab, CR, LF) and ordinary
+   comments (block comments that are not doc comments, line comments) -- the statement's "separated only by whitespace and
+   ordinary comments" (C18_locate_gap, C18_attach_gap); the normaliser (paragraph / line / tag structure) is covered by the
+   exact correspondence javadoc-model = implementation (its regular expressions are regenerated from src/javadoc.rs) and by
+   the generator-based oracle, not by theorems. *)
+From AidlV Require Import Model.Javadoc Proofs.Javadoc Proofs.JavadocGap.
 
 (* for ANY text before, any comment text without '/' that does not start with '*' (any Unicode content), and any
    blank gap: the scanner returns exactly the comment's text, code point for code point *)
@@ -18,6 +20,35 @@ Theorem C18_attach : forall pre body gap rest,
   = Some (Some (parse_javadoc body)).
 Proof. exact get_javadoc_doc. Qed.
 Print Assumptions C18_attach.
+
+(* the same across any gap made of blanks, ordinary block comments /* b */ (b without '/', not starting with '*', possibly
+   empty: /**/ is an ordinary comment) and line comments // t (t without '/' and newline) *)
+Theorem C18_locate_gap : forall pre body gap,
+  doc_body body -> gap_ok gap ->
+  find_content_string (pre ++ opener ++ body ++ closer ++ gap) = Some (Some body).
+Proof. exact find_content_string_doc_gap. Qed.
+Print Assumptions C18_locate_gap.
+
+Theorem C18_attach_gap : forall pre body gap rest,
+  doc_body body -> gap_ok gap ->
+  get_javadoc ((pre ++ opener ++ body ++ closer ++ gap) ++ rest) (byte_len (pre ++ opener ++ body ++ closer ++ gap))
+  = Some (Some (parse_javadoc body)).
+Proof. exact get_javadoc_doc_gap. Qed.
+Print Assumptions C18_attach_gap.
+
+Example C18_ex_gap : gap_ok (lit " /* x */
+  // note
+  /**/ ").
+Proof.
+  vm_compute.
+  Ltac blanks := repeat (apply GO_blank; [first [left; reflexivity | right; left; reflexivity | right; right; left; reflexivity
+                                               | right; right; right; reflexivity]|]).
+  Ltac notin := cbn; intros H; repeat (destruct H as [H|H]; [discriminate H|]); exact H.
+  blanks. apply (GO_block [32; 120; 32]%N); [notin|discriminate|].
+  blanks. apply (GO_line [32; 110; 111; 116; 101]%N); [notin|notin|].
+  blanks. apply (GO_block []); [intros []|exact I|].
+  blanks. constructor.
+Qed.
 
 (* a construct preceded (after blanks) by something that is not a comment has no documentation:
    here for a first line `pre c gap` without '/' and newline *)
